@@ -2,11 +2,11 @@
    (Custom.v) for all layouts and all edit sequences (no bound on their length):
    A. every call changes the vector exactly as its name says (add = append, delete = remove at index,
       modify = replace data), emission is list order, parse-then-emit yields the non-name custom sections in
-      file order (outside D09);
+      file order;
    B. the model equals the slot specification of CheckCustom.v for every edit sequence (fold_left induction);
    C. on slots: position and name of a section never change, a step changes at most the slot its id designates,
       data only changes through a modify, liveness only through a delete, added sections come after all others;
-   D. the model satisfies the executable specification; soundness of the checker; the D09 witness. *)
+   D. the model satisfies the executable specification; soundness of the checker; the former D09 witness. *)
 From Coq Require Import List Arith NArith Bool Lia.
 Import ListNotations.
 From Orca Require Import Util Flat Custom CheckCustom EqbFacts.
@@ -74,60 +74,40 @@ Qed.
 Theorem emit_is_list_order l : emit_customs l = l.
 Proof. reflexivity. Qed.
 
-(* parse: outside D09, and when every name section is well-formed, the vector after parsing is the list of the
-   non-name custom sections in file order *)
-Lemma name_ok_not_d09 st fnames :
-  existsb (fun i => negb (i <? p_nimp st) && negb (i - p_nimp st <? p_ncode st)) fnames = false ->
-  forallb (name_ok st) fnames = true.
-Proof.
-  induction fnames as [|i t IH]; [reflexivity|]. cbn [existsb forallb]. intros H.
-  apply orb_false_iff in H. destruct H as [H1 H2]. rewrite (IH H2), andb_true_r.
-  unfold name_ok. destruct (i <? p_nimp st); [reflexivity|]. cbn in H1.
-  destruct (i - p_nimp st <? p_ncode st); [reflexivity|discriminate].
-Qed.
-
+(* parse: when every name section is well-formed, the vector after parsing is the list of the non-name custom
+   sections in file order *)
 Lemma parse_items_spec : forall l st,
-  d09_scan (p_nimp st) (p_ncode st) l = false ->
   forallb name_wellformed l = true ->
   exists st', parse_items st l = Done st' /\ p_customs st' = p_customs st ++ spec_customs l.
 Proof.
-  induction l as [|it l IH]; intros st Hd Hw.
+  induction l as [|it l IH]; intros st Hw.
   - exists st. cbn. rewrite app_nil_r. split; reflexivity.
   - cbn [forallb] in Hw. apply andb_true_iff in Hw. destruct Hw as [Hw1 Hw].
     destruct it as [id n|name data info].
-    + cbn [d09_scan] in Hd. cbn [parse_items parse_item spec_customs].
+    + cbn [parse_items parse_item spec_customs].
       destruct (N.eqb id 2); [|destruct (N.eqb id 10)].
-      * apply (IH (mkP (p_nimp st + n) (p_ncode st) (p_customs st)) Hd Hw).
-      * apply (IH (mkP (p_nimp st) (p_ncode st + n) (p_customs st)) Hd Hw).
-      * apply (IH st Hd Hw).
-    + cbn [d09_scan] in Hd. apply orb_false_iff in Hd. destruct Hd as [Hd1 Hd].
-      cbn [parse_items parse_item spec_customs].
+      * apply (IH (mkP (p_nimp st + n) (p_ncode st) (p_customs st)) Hw).
+      * apply (IH (mkP (p_nimp st) (p_ncode st + n) (p_customs st)) Hw).
+      * apply (IH st Hw).
+    + cbn [parse_items parse_item spec_customs].
       destruct (N.eqb_spec name NAME) as [->|Hn].
       * (* a name section: consumed *)
         destruct info as [|fnames| |s].
-        -- apply (IH _ Hd Hw).
-        -- cbn in Hd1. rewrite (name_ok_not_d09 _ _ Hd1). apply (IH _ Hd Hw).
+        -- apply (IH _ Hw).
+        -- apply (IH _ Hw).
         -- discriminate Hw1.
-        -- apply (IH _ Hd Hw).
-      * destruct (N.eqb_spec name PRODUCERS) as [->|Hp].
-        -- assert (Hs : match info with CProd 1 => False | _ => True end).
-           { destruct info as [| | |s]; try exact I. destruct s as [|[p|p|]]; try exact I. cbn in Hd1. discriminate. }
-           set (st1 := mkP (p_nimp st) (p_ncode st) (p_customs st ++ [(PRODUCERS, data)])).
-           destruct (IH st1 Hd Hw) as (st' & E1 & E2).
-           exists st'. split.
-           ++ destruct info as [| | |s]; try exact E1. destruct s as [|[p|p|]]; try exact E1. destruct Hs.
-           ++ rewrite E2. unfold st1. cbn [p_customs]. rewrite <- app_assoc. reflexivity.
-        -- set (st1 := mkP (p_nimp st) (p_ncode st) (p_customs st ++ [(name, data)])).
-           destruct (IH st1 Hd Hw) as (st' & E1 & E2).
-           exists st'. split; [exact E1|]. rewrite E2. unfold st1. cbn [p_customs]. rewrite <- app_assoc. reflexivity.
+        -- apply (IH _ Hw).
+      * set (st1 := mkP (p_nimp st) (p_ncode st) (p_customs st ++ [(name, data)])).
+        destruct (IH st1 Hw) as (st' & E1 & E2).
+        exists st'. split; [exact E1|]. rewrite E2. unfold st1. cbn [p_customs]. rewrite <- app_assoc. reflexivity.
 Qed.
 
 Theorem parse_then_emit layout :
-  d09_scan 0 0 layout = false -> forallb name_wellformed layout = true ->
+  forallb name_wellformed layout = true ->
   parse_customs layout = Done (spec_customs layout).
 Proof.
-  intros Hd Hw. unfold parse_customs.
-  destruct (parse_items_spec layout (mkP 0 0 []) Hd Hw) as (st' & E1 & E2).
+  intros Hw. unfold parse_customs.
+  destruct (parse_items_spec layout (mkP 0 0 []) Hw) as (st' & E1 & E2).
   rewrite E1, E2. reflexivity.
 Qed.
 
@@ -384,7 +364,7 @@ Proof.
 Qed.
 
 (* ---------------------------------------------------------------------------------------- *)
-(* D. the model satisfies the executable specification; checker soundness; the D09 witness *)
+(* D. the model satisfies the executable specification; checker soundness; the former D09 witness *)
 
 Lemma csec_eqb_refl x : csec_eqb x x = true.
 Proof. unfold csec_eqb. rewrite !N.eqb_refl. reflexivity. Qed.
@@ -402,11 +382,11 @@ Proof.
 Qed.
 
 Theorem model_meets_spec c :
-  domain28 c = true -> known_D09 c = false -> holds_on c (model c) = true.
+  domain28 c = true -> holds_on c (model c) = true.
 Proof.
-  unfold domain28, known_D09. intros Hd Hk.
+  unfold domain28. intros Hd.
   apply andb_true_iff in Hd. destruct Hd as [Hd Hrun]. apply andb_true_iff in Hd. destruct Hd as [Hw _].
-  unfold model. rewrite (parse_then_emit _ Hk Hw), model_is_view_of_slots.
+  unfold model. rewrite (parse_then_emit _ Hw), model_is_view_of_slots.
   unfold holds_on.
   destruct (spec_run (cc_ops c) (spec_customs (cc_layout c))) as [[rs s]|]; [|discriminate].
   unfold emit_customs. rewrite !N.eqb_refl.
@@ -414,16 +394,18 @@ Proof.
 Qed.
 
 Theorem checker28_sound c :
-  agree c = true -> domain28 c = true -> known_D09 c = false -> holds28 c = true.
+  agree c = true -> domain28 c = true -> holds28 c = true.
 Proof.
-  intros Ha Hd Hk. unfold agree in Ha. apply obs28_eqb_eq in Ha.
+  intros Ha Hd. unfold agree in Ha. apply obs28_eqb_eq in Ha.
   unfold holds28. rewrite <- Ha. apply model_meets_spec; assumption.
 Qed.
 
-(* D09: the property is false of the faithful model — a valid module with a zero-field producers section *)
-Theorem refuted_by_D09 :
-  exists c, agree c = true /\ domain28 c = true /\ known_D09 c = true /\ holds28 c = false.
+(* the former D09 witness -- a valid module with a zero-field producers section -- now satisfies the property: the
+   section is preserved *)
+Theorem former_D09_witness_holds :
+  exists c, cc_layout c = [IStd 1 0; ICustom 2 0 CPlain; ICustom PRODUCERS 1 (CProd 1)]
+            /\ agree c = true /\ domain28 c = true /\ holds28 c = true.
 Proof.
-  exists (mkCC [IStd 1 0; ICustom 2 0 CPlain; ICustom PRODUCERS 1 (CProd 1)] [] 1 1 [] [] 0 0 true).
+  exists (mkCC [IStd 1 0; ICustom 2 0 CPlain; ICustom PRODUCERS 1 (CProd 1)] [] 1 0 [] [(2, 0); (PRODUCERS, 1)] 1 1 true).
   vm_compute. repeat split; reflexivity.
 Qed.
